@@ -38,7 +38,11 @@ def mid(f, m):
 
 def importers():
     """package dir -> package dirs whose tests must be run when it changes (itself + transitive importers)"""
-    rc, out = sh("go list -f '{{.ImportPath}} {{join .Imports \" \"}} {{join .TestImports \" \"}} {{join .XTestImports \" \"}}' ./...", cwd=REPO)
+    # on a scratch copy: with -mod=mod `go list` may rewrite go.sum
+    tmp = "/tmp/mut-list-%d" % os.getpid()
+    sh("rm -rf %s && rsync -a --exclude .git %s/ %s/" % (tmp, REPO, tmp))
+    rc, out = sh("go list -f '{{.ImportPath}} {{join .Imports \" \"}} {{join .TestImports \" \"}} {{join .XTestImports \" \"}}' ./...", cwd=tmp)
+    shutil.rmtree(tmp, ignore_errors=True)
     pre = "github.com/creachadair/mds/"
     imp = {}
     for l in out.splitlines():
